@@ -399,6 +399,7 @@ def run(chk, ctx):
     block_rules(chk, P)
     from . import lexrules
     lexrules.spelling_rule(chk, P, ("Loop", "While", "End", "Bits", "Declare", "LParen", "RParen", "Comma", "Semi"))
+    lexrules.literal_language_rule(chk, P)   # "an integer literal that does not fit in 64 bits": the whole digit run is one token
     row_rules(chk, P, L)
     factor_rules(chk, P, L)
     header_rules(chk, P)
